@@ -2,6 +2,7 @@ import PeptVerif.Model.ModBuilder
 import PeptVerif.Spec.ModBuilder
 import Mathlib.Data.List.Nodup
 import Mathlib.Data.List.Perm.Basic
+import Mathlib.Algebra.Order.Group.Multiset
 /-! Helper lemmas for C13. -/
 set_option linter.unnecessarySeqFocus false
 set_option linter.unusedSimpArgs false
@@ -1002,6 +1003,297 @@ theorem applyVariableCore_nodup (a : Annotation) (internal nt ct : List (Rule (L
     apply hne
     unfold tkey
     rw [← h1.nterm, ← h1.cterm, ← h2.nterm, ← h2.cterm]
+
+/-! ### mode skip: the terminal variants -/
+
+theorem filter_eq_of_nodup (sites : List Int) (h : sites.Nodup) (i : Int) :
+    sites.filter (· = i) = if i ∈ sites then [i] else [] := by
+  induction sites with
+  | nil => simp
+  | cons x r ih =>
+    obtain ⟨hx, hr⟩ := List.nodup_cons.mp h
+    by_cases hxi : x = i
+    · subst hxi; simp [ih hr, hx]
+    · have : ¬ i = x := fun h => hxi h.symm
+      simp [List.filter_cons, hxi, ih hr, this]
+
+theorem staticOffers_single (p : Rule Group) (hne : p.2 ≠ []) (hnd : p.1.Nodup) (i : Int) :
+    staticOffers [p] i = if i ∈ p.1 then [p.2] else [] := by
+  unfold staticOffers
+  have : (!p.2.isEmpty) = true := by simp [hne]
+  simp only [List.filter_cons, this, if_true, List.filter_nil, List.flatMap_cons, List.flatMap_nil, List.append_nil,
+    filter_eq_of_nodup _ hnd]
+  split <;> simp
+
+/-- a single terminal variant in mode skip (`get` / `set` = the N- or the C-terminal field) -/
+theorem term_variant_skip (old : Option (List Mod)) (p : Rule Group) (hne : p.2 ≠ []) (hnd : p.1.Nodup) (pos : Int) :
+    staticTable .skip old (staticOffers [p] pos) = if old.isSome then old else if pos ∈ p.1 then some p.2 else none := by
+  rw [staticOffers_single p hne hnd]
+  unfold staticTable
+  cases old <;> split <;> simp_all
+
+theorem mem_termPairs {rules : List (Rule (List Group))} {p : Rule Group} (h : p ∈ termPairs rules) :
+    ∃ r ∈ rules, p.1 = r.1 ∧ p.2 ∈ r.2 := by
+  unfold termPairs at h
+  obtain ⟨r, hr, hp⟩ := List.mem_flatMap.mp h
+  obtain ⟨g, hg, rfl⟩ := List.mem_map.mp hp
+  exact ⟨r, hr, rfl, hg⟩
+
+/-- rules as they come out of `varRules`: sites without repetition, no empty group -/
+def GoodRules (rules : List (Rule (List Group))) : Prop := ∀ r ∈ rules, r.1.Nodup ∧ ∀ g ∈ r.2, g ≠ []
+
+theorem nBases_skip (a : Annotation) (nt : List (Rule (List Group))) (hg : GoodRules nt) :
+    nBases .skip a nt =
+      (if a.nterm.isSome then [] else termOffered nt 0).map fun g => { a with nterm := some g } := by
+  unfold nBases termOffered
+  have key : ∀ p ∈ termPairs nt,
+      (if annotEq (nWith .skip a p) a then none else some (nWith .skip a p)) =
+        if a.nterm.isSome then none else if (0 : Int) ∈ p.1 then some { a with nterm := some p.2 } else none := by
+    intro p hp
+    obtain ⟨r, hr, h1, h2⟩ := mem_termPairs hp
+    have hne : p.2 ≠ [] := (hg r hr).2 _ h2
+    have hnd : p.1.Nodup := h1 ▸ (hg r hr).1
+    rw [nWith_eq, annotEq_nterm, term_variant_skip _ p hne hnd]
+    cases hn : a.nterm with
+    | some o => simp [modsEq_refl]
+    | none =>
+      by_cases h0 : (0 : Int) ∈ p.1
+      · simp [h0, modsEq]
+      · simp only [Option.isSome_none, Bool.false_eq_true, if_false, h0, modsEq, if_true]
+  rw [List.filterMap_congr key]
+  cases hn : a.nterm.isSome
+  · simp only [Bool.false_eq_true, if_false, List.map_filterMap]
+    refine List.filterMap_congr ?_
+    intro p _; split <;> simp
+  · simp
+
+theorem cVariants_skip (a b : Annotation) (ct : List (Rule (List Group))) (hg : GoodRules ct)
+    (hc : b.cterm = a.cterm) (hs : b.seq = a.seq) :
+    ((termPairs ct).filterMap fun p => if annotEq (cWith .skip b p) b then none else some (cWith .skip b p)) =
+      (if a.cterm.isSome then [] else termOffered ct ((a.seq.length : Int) - 1)).map
+        fun g => { b with cterm := some g } := by
+  unfold termOffered
+  have key : ∀ p ∈ termPairs ct,
+      (if annotEq (cWith .skip b p) b then none else some (cWith .skip b p)) =
+        if a.cterm.isSome then none else
+          if ((a.seq.length : Int) - 1) ∈ p.1 then some { b with cterm := some p.2 } else none := by
+    intro p hp
+    obtain ⟨r, hr, h1, h2⟩ := mem_termPairs hp
+    have hne : p.2 ≠ [] := (hg r hr).2 _ h2
+    have hnd : p.1.Nodup := h1 ▸ (hg r hr).1
+    rw [cWith_eq, annotEq_cterm, term_variant_skip _ p hne hnd, hs, hc]
+    cases hn : a.cterm with
+    | some o => simp [modsEq_refl]
+    | none =>
+      by_cases h0 : ((a.seq.length : Int) - 1) ∈ p.1
+      · simp [h0, modsEq]
+      · have : ({ b with cterm := none } : Annotation) = b := by rw [← hn, ← hc]
+        simp only [Option.isSome_none, Bool.false_eq_true, if_false, h0, modsEq, if_true]
+  rw [List.filterMap_congr key]
+  cases hn : a.cterm.isSome
+  · simp only [Bool.false_eq_true, if_false, List.map_filterMap]
+    refine List.filterMap_congr ?_
+    intro p _; split <;> simp
+  · simp
+
+/-- the bases of mode skip are the terminal variants of the specification (as a multiset) -/
+theorem variantBases_skip_perm (a : Annotation) (nt ct : List (Rule (List Group)))
+    (hn : GoodRules nt) (hc : GoodRules ct) :
+    (variantBases .skip a nt ct).Perm
+      ((nVariants a nt).flatMap fun n => (cVariants a ct).map fun c => withTerm a n c) := by
+  unfold variantBases nVariants cVariants
+  rw [nBases_skip a nt hn]
+  have hmapC : (if a.cterm.isSome = true then [] else List.map some (termOffered ct ((a.seq.length : Int) - 1)))
+      = (if a.cterm.isSome then [] else termOffered ct ((a.seq.length : Int) - 1)).map some := by
+    split <;> simp
+  have hmapN : (if a.nterm.isSome = true then [] else List.map some (termOffered nt 0))
+      = (if a.nterm.isSome then [] else termOffered nt 0).map some := by
+    split <;> simp
+  rw [hmapC, hmapN]
+  generalize (if a.nterm.isSome then [] else termOffered nt 0) = N'
+  -- per base: its C-terminal variants
+  have hC : ∀ b : Annotation, b.cterm = a.cterm → b.seq = a.seq →
+      ((termPairs ct).flatMap fun p => (if annotEq (cWith .skip b p) b then none else some (cWith .skip b p)).toList)
+        = (if a.cterm.isSome then [] else termOffered ct ((a.seq.length : Int) - 1)).map
+            fun g => { b with cterm := some g } := by
+    intro b h1 h2
+    rw [← List.filterMap_eq_flatMap_toList]
+    exact cVariants_skip a b ct hc h1 h2
+  generalize (if a.cterm.isSome then [] else termOffered ct ((a.seq.length : Int) - 1)) = C' at hC
+  generalize hNB : (N'.map fun g => ({ a with nterm := some g } : Annotation)) = NB
+  -- split the C-terminal loop
+  have h1 : ((termPairs ct).flatMap fun p =>
+        (NB.filterMap fun nb => if annotEq (cWith .skip nb p) nb then none else some (cWith .skip nb p))
+        ++ (if annotEq (cWith .skip a p) a then [] else [cWith .skip a p])).Perm
+      ((NB.flatMap fun nb => C'.map fun g => ({ nb with cterm := some g } : Annotation))
+        ++ C'.map fun g => ({ a with cterm := some g } : Annotation)) := by
+    refine (List.flatMap_append_perm _ _ _).symm.trans (List.Perm.append ?_ ?_)
+    · simp only [List.filterMap_eq_flatMap_toList]
+      refine (flatMap_swap _ _ _).trans ?_
+      refine List.Perm.of_eq (List.flatMap_congr ?_)
+      intro nb hnb
+      rw [← hNB] at hnb
+      obtain ⟨g, -, rfl⟩ := List.mem_map.mp hnb
+      exact hC _ rfl rfl
+    · refine List.Perm.of_eq ?_
+      rw [← hC a rfl rfl]
+      refine List.flatMap_congr ?_
+      intro p _; split <;> simp
+  refine (List.Perm.append_left _ (List.Perm.append_right _ h1)).trans ?_
+  -- the specification side
+  have h2 : ((none :: N'.map some).flatMap fun n => (none :: C'.map some).map fun c => withTerm a n c) =
+      (a :: C'.map fun g => ({ a with cterm := some g } : Annotation)) ++
+        NB.flatMap fun nb => nb :: C'.map fun g => ({ nb with cterm := some g } : Annotation) := by
+    rw [← hNB]
+    simp [withTerm, List.flatMap_map, Function.comp_def]
+  rw [h2]
+  have h3 : (NB.flatMap fun nb => nb :: C'.map fun g => ({ nb with cterm := some g } : Annotation)).Perm
+      (NB ++ NB.flatMap fun nb => C'.map fun g => ({ nb with cterm := some g } : Annotation)) := by
+    have := (List.flatMap_append_perm NB (fun nb => [nb])
+      (fun nb => C'.map fun g => ({ nb with cterm := some g } : Annotation))).symm
+    simpa using this
+  refine List.Perm.trans ?_ (List.Perm.append_left _ h3.symm)
+  rw [← Multiset.coe_eq_coe]
+  simp only [← Multiset.coe_add, ← Multiset.cons_coe, ← Multiset.singleton_add, Multiset.coe_nil, Multiset.add_zero]
+  ac_rfl
+
+theorem specForms_eq (a : Annotation) (internal nt ct : List (Rule (List Group))) (maxMods : Int) :
+    specForms a internal nt ct maxMods =
+      ((nVariants a nt).flatMap fun n => (cVariants a ct).map fun c => withTerm a n c).flatMap
+        fun b => internalForms b internal maxMods := by
+  unfold specForms
+  rw [List.flatMap_assoc]
+  refine List.flatMap_congr ?_
+  intro n _
+  rw [List.flatMap_map]
+
+/-- **mode skip**: `apply_variable_mods` returns the forms of the specification, each as often -/
+theorem applyVariableCore_skip_perm (a : Annotation) (internal nt ct : List (Rule (List Group))) (maxMods : Int)
+    (h0 : 0 ≤ maxMods) (hi : ∀ r ∈ internal, r.1.Nodup) (hn : GoodRules nt) (hc : GoodRules ct) :
+    (applyVariableCore a internal nt ct maxMods .skip).Perm (specForms a internal nt ct maxMods) := by
+  rw [applyVariableCore_eq, specForms_eq]
+  refine (List.Perm.flatMap_left _ fun b _ => variableBuilder_skip_perm b internal maxMods h0 hi).trans ?_
+  exact List.Perm.flatMap_right _ (variantBases_skip_perm a nt ct hn hc)
+
+theorem nodup_product_map {α β γ δ : Type} (l₁ : List α) (l₂ : List β) (f : α → γ) (g : β → δ)
+    (h₁ : (l₁.map f).Nodup) (h₂ : (l₂.map g).Nodup) :
+    (l₁.flatMap fun x => l₂.map fun y => (f x, g y)).Nodup := by
+  rw [List.nodup_flatMap]
+  refine ⟨fun x _ => ?_, ?_⟩
+  · have : (l₂.map fun y => (f x, g y)) = (l₂.map g).map fun d => (f x, d) := by simp
+    rw [this]
+    exact h₂.map (fun d d' h => by simpa using h)
+  · refine (List.pairwise_map.mp h₁).imp ?_
+    intro x x' hne
+    simp only [Function.onFun]
+    intro p hp hp'
+    obtain ⟨y, -, rfl⟩ := List.mem_map.mp hp
+    obtain ⟨y', -, h⟩ := List.mem_map.mp hp'
+    exact hne (by simpa using (congrArg Prod.fst h).symm)
+
+theorem tkey_withTerm (a : Annotation) (n c : Option Group) :
+    tkey (withTerm a n c) = ((match n with | some g => some g | none => a.nterm),
+      (match c with | some g => some g | none => a.cterm)) := by
+  cases n <;> cases c <;> rfl
+
+theorem variantBases_skip_keys_nodup (a : Annotation) (nt ct : List (Rule (List Group)))
+    (hn : GoodRules nt) (hc : GoodRules ct)
+    (hdn : (termOffered nt 0).Nodup) (hdc : (termOffered ct ((a.seq.length : Int) - 1)).Nodup) :
+    ((variantBases .skip a nt ct).map tkey).Nodup := by
+  refine ((variantBases_skip_perm a nt ct hn hc).map tkey).nodup_iff.mpr ?_
+  rw [List.map_flatMap]
+  simp only [List.map_map, Function.comp_def, tkey_withTerm]
+  refine nodup_product_map _ _ (fun n : Option Group => match n with | some g => some g | none => a.nterm)
+    (fun c : Option Group => match c with | some g => some g | none => a.cterm) ?_ ?_
+  · unfold nVariants
+    cases h : a.nterm with
+    | some o => simp
+    | none =>
+      simp only [Option.isSome_none, Bool.false_eq_true, if_false, List.map_cons, List.map_map]
+      refine List.nodup_cons.mpr ⟨by simp, ?_⟩
+      exact hdn.map (fun g g' h => by simpa using h)
+  · unfold cVariants
+    cases h : a.cterm with
+    | some o => simp
+    | none =>
+      simp only [Option.isSome_none, Bool.false_eq_true, if_false, List.map_cons, List.map_map]
+      refine List.nodup_cons.mpr ⟨by simp, ?_⟩
+      exact hdc.map (fun g g' h => by simpa using h)
+
+theorem siteOK_skip (old : Option (List Mod)) (gs : List Group) (h : gs.Nodup) : SiteOK .skip old gs := by
+  cases old with
+  | some o => exact Or.inl ⟨rfl, rfl⟩
+  | none =>
+    refine Or.inr ⟨?_, fun g _ => by simp⟩
+    have : gs.map (newVal .skip none) = gs :=
+      (List.map_congr_left (fun g _ => (rfl : newVal .skip none g = id g))).trans (List.map_id _)
+    rw [this]; exact h
+
+theorem siteOK_append (old : Option (List Mod)) (gs : List Group) (h : gs.Nodup) (hne : [] ∉ gs) :
+    SiteOK .append old gs := by
+  cases old with
+  | none =>
+    refine Or.inr ⟨?_, fun g _ => by simp⟩
+    have : gs.map (newVal .append none) = gs :=
+      (List.map_congr_left (fun g _ => (rfl : newVal .append none g = id g))).trans (List.map_id _)
+    rw [this]; exact h
+  | some o =>
+    refine Or.inr ⟨?_, fun g hg => ?_⟩
+    · exact h.map (fun g g' hgg => by simpa [newVal] using hgg)
+    · simp only [newVal, ne_eq, Option.some.injEq, List.append_right_eq_self]
+      intro h'; exact hne (h' ▸ hg)
+
+theorem siteOK_overwrite (old : Option (List Mod)) (gs : List Group) (h : gs.Nodup)
+    (hne : ∀ o, old = some o → o ∉ gs) : SiteOK .overwrite old gs := by
+  cases old with
+  | none =>
+    refine Or.inr ⟨?_, fun g _ => by simp⟩
+    have : gs.map (newVal .overwrite none) = gs :=
+      (List.map_congr_left (fun g _ => (rfl : newVal .overwrite none g = id g))).trans (List.map_id _)
+    rw [this]; exact h
+  | some o =>
+    refine Or.inr ⟨?_, fun g hg => ?_⟩
+    · have : gs.map (newVal .overwrite (some o)) = gs :=
+        (List.map_congr_left (fun g _ => (rfl : newVal .overwrite (some o) g = id g))).trans (List.map_id _)
+      rw [this]; exact h
+    · simp only [newVal, ne_eq, Option.some.injEq]
+      intro h'; exact hne o rfl (h' ▸ hg)
+
+/-! ### argument conversion -/
+
+theorem removeEmpty_some {l gs : List (List Mod)} (h : removeEmpty l = some gs) : ∀ g ∈ gs, g ≠ [] := by
+  unfold removeEmpty at h
+  simp only at h
+  split at h
+  · simp at h
+  · simp only [Option.some.injEq] at h
+    subst h
+    intro g hg
+    have := (List.mem_filter.mp hg).2
+    simpa using this
+
+theorem goodRules_varRules (rules : List (Rule VarIn)) (h : ∀ r ∈ rules, r.1.Nodup) : GoodRules (varRules rules) := by
+  intro r hr
+  unfold varRules at hr
+  obtain ⟨r0, hr0, hx⟩ := List.mem_filterMap.mp hr
+  cases hre : removeEmpty (fixListOfListOfMods r0.2) with
+  | none => simp [hre] at hx
+  | some gs =>
+    simp only [hre, Option.some.injEq] at hx
+    subst hx
+    exact ⟨h r0 hr0, removeEmpty_some hre⟩
+
+theorem goodRules_varTermRules (es : List Int) (hes : es.Nodup) (t : TermIn VarIn)
+    (h : ∀ rules, t = .dict rules → ∀ r ∈ rules, r.1.Nodup) : GoodRules (varTermRules es t) := by
+  cases t with
+  | none => intro r hr; simp [varTermRules] at hr
+  | dict rules => exact goodRules_varRules rules (h rules rfl)
+  | direct v =>
+    simp only [varTermRules]
+    split
+    · exact goodRules_varRules _ (fun r hr => by
+        simp only [List.mem_singleton] at hr; subst hr; exact hes)
+    · intro r hr; cases hr
 
 end ModBuilder
 end Pept
